@@ -139,8 +139,8 @@ E('recast', lambda t: petl.recast(petl.melt(t, 'a'), key='a', reducers={'b': lis
 E('transpose', lambda t: petl.transpose(t), hdr=('a',), rows=[('b',), ('c',)])
 E('pivot', lambda t: petl.pivot(t, 'a', 'c', 'b', sum), hdr=('a',))
 E('flatten', lambda t: petl.flatten(t), kind='values', stream=True)
-E('unflatten', lambda t: petl.unflatten(petl.flatten(t), 3), hdr=('f0', 'f1', 'f2'))
-E('unflatten-field', lambda t: petl.unflatten(t, 'b', 2), hdr=('f0', 'f1'))
+E('unflatten', lambda t: petl.unflatten(petl.flatten(t), 3), hdr=('f0', 'f1', 'f2'), stream=True)
+E('unflatten-field', lambda t: petl.unflatten(t, 'b', 2), hdr=('f0', 'f1'), stream=True)
 # ---- dedup / sorts / reductions (sort-backed)
 E('sort', lambda t: petl.sort(t, 'a'))
 E('sort-none', lambda t: petl.sort(t))
